@@ -18,7 +18,8 @@ def sig_index(vec, probs):
 # kind patterns on 5-dimensional arrays and long dimensions with block-shaped subsets (MaxDims is irrelevant for the
 # pattern families and kept at 1: TLC evaluates every constant definition of the module eagerly)
 PATTERN_MODELS = [("getpat", "P22222", 1), ("getpat", "P23232", 1), ("setpat", "P22222", 1), ("get", "P52", 2), ("get", "P25", 2),
-                  ("setnum", "P52", 2), ("setnum", "P25", 2)]
+                  ("setnum", "P52", 2), ("setnum", "P25", 2), ("getpat", "P222222", 1), ("get", "P72", 2), ("setnum", "P27", 2), ("setnum", "P72", 2),
+                  ("geterr", "P72", 2)]
 
 
 def run_index(out, families, patterns, maxdims, invariants, prop, probe_alias=False, extra=()):
